@@ -93,6 +93,13 @@ impl Gen {
         if o.stopped {
             // get it running again most of the time
             if rng.chance(1, 2) {
+                // mostly with identical totals; sometimes with a corrected staked total (slash booking)
+                if o.l > 0 && rng.chance(1, 3) {
+                    let d = 1 + rng.below128((o.n / 50).max(2));
+                    let nn = if rng.chance(1, 2) { o.n.saturating_add(d) } else { o.n.saturating_sub(d).max(1) };
+                    let nn = nn.clamp((o.l / 1000).max(1), o.l.saturating_mul(1000));
+                    return vec![sc.resume(nn, o.l, o.rewards)];
+                }
                 return vec![sc.resume(o.n, o.l, o.rewards)];
             }
         }
